@@ -28,7 +28,7 @@ OBLIGATIONS = [NS + t for t in [
     "mse_hasDerivAt", "sqhinge_hasDerivAt", "logistic_hasDerivAt", "exponential_hasDerivAt", "cauchy_hasDerivAt",
     "savage_hasDerivAt", "tangent_hasDerivAt",
     # declared flags
-    "flags_covered", "strong_covered",
+    "flags_covered", "strong_covered", "strong_values_covered",
 ]]
 TRUSTED = [
     "Lean 4.33.0 kernel; Mathlib modules imported by NanoVerif/Proofs/C06*.lean and NanoVerif/Props/C06.lean (Tactic.Ring, "
@@ -53,9 +53,10 @@ ASSUMPTIONS = [
     "constant log(1+epsilon) <= 2.3e-16 (theorem classnll_subgrad_eps; exact for epsilon = 0: classnll_subgrad)",
     "loss values are non-negative for s-classnll only when the target has exactly one positive entry (classnll_nonneg); the library "
     "feeds one-hot targets to single-label losses; other patterns are generated, evaluated and only counted",
-    "quadratic (benchmark) and the quadratic constraint kinds are convex under the hypothesis that the matrix is symmetric positive "
-    "semi-definite (hypothesis of quadratic_subgrad / cquad_subgrad; the eigenvalue test of nano::convex and the declared "
-    "strong-convexity coefficient of quadratic are tested only)",
+    "quadratic (benchmark) is convex under the hypothesis that its matrix A = I + R R' is self-adjoint and positive semi-definite "
+    "(hypotheses of quadratic_subgrad); the quadratic constraint kinds (symmetrised gradient, 78c1895) for every square P with "
+    "d.Pd >= 0 (hypothesis of cquad_subgrad, no symmetry needed); the eigenvalue tests of nano::convex / nano::strong_convexity "
+    "(Eigen) that decide these hypotheses and the declared coefficients of quadratic / quadratic constraints are tested only",
     "non-convex benchmark functions and losses: gradient correctness by difference quotients only (plus HasDerivAt for the scalar kernels)",
     "ML objectives (linear / gboost / surrogate, elastic-net prototypes): convexity follows from affine_comp_subgrad + sum_subgrad + "
     "ridge_subgrad_mu given the loss kernel's inequality; their plumbing (dataset iteration, accumulation) is tested, not modelled",
@@ -165,10 +166,11 @@ def flags_text(d):
     out += ["deriving DecidableEq, Repr", "",
             "/-- the id the object is registered under -/", "def Obj.id : Obj → String"]
     out += [f"  | .{n} => \"{i}\"" for n, i in objs]
-    out += ["", "/-- one declaration: object, dimension asked for (0 for losses), `convex()`, `smooth()`, `strong_convexity() > 0` -/",
+    out += ["", "/-- one declaration: object, dimension asked for (0 for losses), `convex()`, `smooth()`, `strong_convexity() > 0`, its bits -/",
             "structure Row where", "  obj : Obj", "  dims : Nat", "  convex : Bool", "  smooth : Bool", "  strong : Bool",
+            "  muBits : Nat  -- bit pattern of the declared strong_convexity() (IEEE binary64)",
             "deriving DecidableEq, Repr", "", "def rows : List Row := ["]
-    out.append(",\n".join(f"  ⟨.{n}, {dm}, {b(c)}, {b(s)}, {b(mu > 0)}⟩" for n, dm, c, s, mu in rows))
+    out.append(",\n".join(f"  ⟨.{n}, {dm}, {b(c)}, {b(s)}, {b(mu > 0)}, 0x{f2h(mu)}⟩" for n, dm, c, s, mu in rows))
     out += ["]", "", "end NanoVerif.Gen.Flags", ""]
     return "\n".join(out)
 
@@ -613,6 +615,10 @@ def obj_id(t):
     return f"{fam}:{t[2]}" if len(t) > 2 else fam
 
 
+def modelled_fn(fid):
+    return fid in MODELLED_FN or "+" in fid  # the elastic-net prototypes <loss>+<ridge|lasso|elasticnet>[..]
+
+
 def model_skip(aug):
     t, _ = split_tag(aug)
     if len(t) < 3:
@@ -623,10 +629,10 @@ def model_skip(aug):
     if op != "eval":
         return True
     if fam == "fn":
-        return t[2] not in MODELLED_FN
+        return not modelled_fn(t[2])
     if fam == "ct":
         if t[2].startswith("functional"):
-            return t[3] not in MODELLED_FN
+            return not modelled_fn(t[3])
         return t[2] not in MODELLED_CT
     return True
 
